@@ -14,7 +14,7 @@ ENGINE = 'E1'
 TECHNIQUE = 'bounded exhaustive enumeration of all custom tables (3..5 nodes over a 6-Mach x 3-CD alphabet) and the nine shipped tables at every critical point (nodes, midpoints, +-1 ulp, interior grid, beyond the table) against a Lagrange-parabola reference; band/positivity decided analytically per identified quadratic piece'
 RULE = ('shipped cells = 9 tables x BC {0.001,.223,1,12}; custom cells = every strictly ascending node set of size 3..5 over Mach {0,.5,1,1.2,2,5} '
         'x CD in {.1,.3,.5}^n (3213 tables); each cell queries every node, node+-1ulp, every midpoint, midpoint+-1ulp, 15 interior points per '
-        'half interval and {1.5,3,10} x last node; api cell = all nine tables digested before/after a battery of public calls; '
+        'half interval and {1.5,3,10} x last node; rebind cells = one long-lived calculator, drag model BC / table edited in place or model replaced between calls x 3 tables x 3 BC pairs; api cell = all nine tables digested before/after a battery of public calls; '
         'non-trivial = table with >= 4 nodes (so interior parabolas differ) or a shipped table')
 ASSUMPTIONS = ['published tables: identity with the pinned snapshot digest (golden/drag_tables.json) is what is checked, no independent copy exists offline',
                'the solver evaluates one quadratic per half interval (identified at 17+ points per piece, then bounded in closed form)',
@@ -268,7 +268,51 @@ def api(cell):
     return {'v': out, 'n': 9 * 3 * 3, 'nt': 'api'}
 
 
-PARTS = {'shipped': shipped, 'custom': custom, 'api': api}
+def rebind(cell):
+    """the drag used is that of the drag model AS IT IS when the call is made: one long-lived calculator, the model's BC / table edited or the
+    model replaced between calls (BC truing loop)"""
+    import py_ballisticcalc as pb
+    import py_ballisticcalc.drag_tables as dt
+    U = pb.Unit
+    tname, bc1, bc2, kind = cell
+    tab = getattr(dt, 'Table' + tname)
+    calc = pb.Calculator()
+    dm = pb.DragModel(bc1, tab)
+    shot = pb.Shot(pb.Weapon(), pb.Ammo(dm, U.FPS(2000)))
+    calc.fire(shot, U.Yard(100), U.Yard(50))
+    cd_scale = 1.0
+    if kind == 'set_bc':
+        dm.BC = bc2
+    elif kind == 'new_model':
+        shot.ammo.dm = pb.DragModel(bc2, tab)
+    elif kind == 'new_ammo':
+        shot.ammo = pb.Ammo(pb.DragModel(bc2, tab), U.FPS(2000))
+    elif kind == 'edit_table':
+        bc2 = bc1
+        cd_scale = 1.25
+        for p_ in dm.drag_table:
+            p_.CD = p_.CD * cd_scale
+    rows = calc.fire(shot, U.Yard(300), U.Yard(100)).trajectory
+    fresh_dm = pb.DragModel(bc2, [{'Mach': q['Mach'], 'CD': q['CD'] * cd_scale} for q in tab])
+    exp = pb.Calculator().fire(pb.Shot(pb.Weapon(), pb.Ammo(fresh_dm, U.FPS(2000))), U.Yard(300), U.Yard(100)).trajectory
+    out = []
+    from mc.world import traj_bits
+    if traj_bits(rows) != traj_bits(exp):
+        out.append({'msg': f'{tname}: calculator used with BC {bc1}, then the model changed ({kind}, BC {bc2}, Cd x{cd_scale}): trajectory differs from a fresh calculator and model '
+                           f'(velocity at 300 yd {rows[-1].velocity >> U.FPS!r} vs {exp[-1].velocity >> U.FPS!r})', 'key': None})
+    # the seam of the property: coefficient after re-initialisation
+    try:
+        calc._calc._init_trajectory(shot)
+        got = calc._calc.drag_by_mach(tab[10]['Mach'])
+    except AttributeError as e:
+        raise HarnessError(str(e))
+    want = tab[10]['CD'] * cd_scale * K_REF / bc2
+    if abs(got - want) > 1e-5 * want:
+        out.append({'msg': f'{tname}: after {kind} the retardation factor at Mach {tab[10]["Mach"]} is {got!r}, Cd x rho0 x pi/(8x144)/BC = {want!r}', 'key': None})
+    return {'v': out, 'n': 3, 'nt': cell}
+
+
+PARTS = {'shipped': shipped, 'custom': custom, 'api': api, 'rebind': rebind}
 MACHS = (0, 0.5, 1, 1.2, 2, 5)
 CDS = (0.1, 0.3, 0.5)
 
@@ -284,4 +328,5 @@ def plan(tier):
         for ms in itertools.combinations((0.3, 0.7, 0.9, 1.0, 1.1, 3.0), 4):
             for cds in itertools.product((0.2, 0.6), repeat=4):
                 cu.append([list(ms), list(cds)])
-    return [('shipped', sh), ('custom', cu), ('api', [0])]
+    rb = [[t, b1, b2, k] for t in ('G7', 'G1', 'RA4') for b1, b2 in ((0.3, 0.22), (0.22, 0.45), (1.0, 0.1)) for k in ('set_bc', 'new_model', 'new_ammo', 'edit_table')]
+    return [('shipped', sh), ('custom', cu), ('api', [0]), ('rebind', rb)]
